@@ -35,6 +35,8 @@ type respCase struct {
 	// Defaults: NewTemplate(nil) over templates/*.tw.html, the documented defaults (no custom page, debug off)
 	Defaults bool   `json:"defaults,omitempty"`
 	Note     string `json:"note,omitempty"`
+	// Linked: names whose file in the template directory is a symbolic link to a regular file kept elsewhere
+	Linked []string `json:"linked,omitempty"`
 }
 
 func init() {
@@ -104,7 +106,18 @@ func c17Run(c *harness.Check, cs respCase) string {
 	if cs.Defaults {
 		dir, ext = "templates", ".tw.html"
 	}
+	linked := map[string]bool{}
+	for _, n := range cs.Linked {
+		linked[n] = true
+	}
 	for n, src := range cs.Files {
+		if linked[n] {
+			// a symbolic link to a regular file is a template file like any other
+			flat := "shared/" + strings.ReplaceAll(n, "/", "_") + ".src"
+			tr[flat] = tree.Entry{Content: src}
+			tr[dir+"/"+n+ext] = tree.Entry{Kind: tree.Symlink, Content: strings.Repeat("../", strings.Count(dir+"/"+n, "/")) + flat}
+			continue
+		}
 		tr[dir+"/"+n+ext] = tree.Entry{Content: src}
 	}
 	root, err := tree.Materialise(tr)
@@ -166,6 +179,11 @@ func c17Run(c *harness.Check, cs respCase) string {
 			}
 			return
 		}
+		if !cs.Fails {
+			// the page and everything it uses are sound files of the directory
+			failure = "the page renders by construction, but String fails: " + ferr.String()
+			return
+		}
 		if rerr == nil {
 			failure = "Response returned nil although rendering fails: " + ferr.String()
 			return
@@ -189,7 +207,7 @@ func c17Run(c *harness.Check, cs respCase) string {
 		case cs.Custom == "valid" && !cs.Debug:
 			want, cerr := tpl.String(cs.ErrorPage, nil)
 			if cerr != nil {
-				failure = "harness: custom page fails"
+				failure = "the custom error page is a sound file of the directory, but rendering it fails: " + cerr.String()
 				return
 			}
 			if body != want {
@@ -300,7 +318,7 @@ func c17Page(rt *rapid.T) (files map[string]string, page string, markers []strin
 
 func TestC17_Configurations(t *testing.T) {
 	c := harness.New(t, "C17", "configurations",
-		"all combinations of {debug on, off} x {no custom error page, a working one, one that does not exist, one that fails at run time} x generated pages {succeeding (plain, with layout and component); failing at run time after 1..4 uniquely marked chunks at top level, inside a loop pass, inside a layout's insert, inside a component argument, inside a slot body, after a registered function has rendered another template of the directory (working, failing, missing) through Response; not existing} x data: success -> nil and body == String(); failure -> non-nil error, no marker of the failed page in the body, body == custom page (working one, debug off) / empty (custom page itself fails, debug off) / built-in page (rendered differentially from default-error-page.tw with the failure's fields); debug off -> neither message nor any path in the body; debug on -> message, path and line in it (the path being that of the page's own file, where every generated fault is written). One case in eight uses no configuration at all (NewTemplate(nil) over templates/*.tw.html): the documented defaults, debug off and no custom page, apply. Non-trivial: failing page and a non-default configuration, or the defaults. Distinct by hash.")
+		"all combinations of {debug on, off} x {no custom error page, a working one, one that does not exist, one that fails at run time} x generated pages {succeeding (plain, with layout and component); failing at run time after 1..4 uniquely marked chunks at top level, inside a loop pass, inside a layout's insert, inside a component argument, inside a slot body, after a registered function has rendered another template of the directory (working, failing, missing) through Response; not existing} x data: success -> nil and body == String(); failure -> non-nil error, no marker of the failed page in the body, body == custom page (working one, debug off) / empty (custom page itself fails, debug off) / built-in page (rendered differentially from default-error-page.tw with the failure's fields); debug off -> neither message nor any path in the body; debug on -> message, path and line in it (the path being that of the page's own file, where every generated fault is written). In one case in six some of the files (the page, the custom error page, the component, the layout) are symbolic links to regular files kept outside the directory. One case in eight uses no configuration at all (NewTemplate(nil) over templates/*.tw.html): the documented defaults, debug off and no custom page, apply. Non-trivial: failing page and a non-default configuration, or the defaults. Distinct by hash.")
 	defer c.Finish()
 	runRapid(t, c, 3000, 30000, func(rt *rapid.T) {
 		files, page, markers, fails, note := c17Page(rt)
@@ -326,8 +344,15 @@ func TestC17_Configurations(t *testing.T) {
 			delete(files, cs.ErrorPage)
 			cs.Defaults, cs.Debug, cs.Custom, cs.ErrorPage = true, false, "none", ""
 		}
+		if rapid.IntRange(0, 5).Draw(rt, "symlinks") == 0 {
+			for _, n := range []string{"page", cs.ErrorPage, "comp", "layouts/l"} {
+				if _, ok := files[n]; ok && rapid.Bool().Draw(rt, "link") {
+					cs.Linked = append(cs.Linked, n)
+				}
+			}
+		}
 		nt := fails && (cs.Debug || cs.Custom != "none" || cs.Defaults)
-		c.Case(nt, mustJSON(cs), "shape:"+note, "custom:"+cs.Custom, fmt.Sprintf("debug:%v", cs.Debug), fmt.Sprintf("defaults:%v", cs.Defaults))
+		c.Case(nt, mustJSON(cs), "shape:"+note, "custom:"+cs.Custom, fmt.Sprintf("debug:%v", cs.Debug), fmt.Sprintf("defaults:%v", cs.Defaults), fmt.Sprintf("symlinked-files:%d", len(cs.Linked)))
 		if nt {
 			c.Sample(map[string]any{"page": files["page"], "shape": note, "custom": cs.Custom, "debug": cs.Debug})
 		}
